@@ -149,6 +149,77 @@ def load(spec):
     return db
 
 
+# --------------------------------------------------------------------------- constant request prefix, from the spec alone
+def visible_services(spec, lname):
+    """service specs visible in layer `lname` after inheritance (a child overrides its parent by short name): {name: svc}"""
+    by = {l["name"]: l for l in spec["layers"]}
+    chain = []
+    x = by[lname]
+    while x is not None:
+        chain.append(x)
+        x = by.get(x.get("parent")) if x.get("parent") else None
+    seen = {}
+    for x in reversed(chain):
+        for s in x["services"]:
+            seen[s["name"]] = s
+    return seen
+
+
+def spec_prefix(spec, svc):
+    """the bytes at the start of every request of `svc` that are fixed by its leading constant parameters (CODED-CONST with
+    its own coded type, PHYS-CONST through its DOP; identity/offset-0 factor-1 computation, big endian), computed from
+    the spec without the code under test. None = not decided here (odd bit length, value out of range, overlapping
+    constants, non-integer value): the caller falls back to what the implementation says."""
+    dops = {d["name"]: d for d in spec.get("dops", [])}
+    buf, used, cursor = bytearray(), bytearray(), 0
+    for p in svc["req"]:
+        if p["kind"] == "const":
+            bl, bt = p["bl"], p.get("bt", "A_UINT32")
+        elif p["kind"] == "physconst":
+            d = dops.get(p.get("dop"))
+            if d is None:
+                return None
+            bl, bt = d["bl"], d["bt"]
+        else:
+            break
+        v = p.get("val")
+        if isinstance(v, bool) or not isinstance(v, int) or bl % 8 or bt not in ("A_UINT32", "A_INT32"):
+            return None
+        if p.get("bp") is not None:
+            cursor = p["bp"]
+        n = bl // 8
+        try:
+            raw = v.to_bytes(n, "big", signed=(bt == "A_INT32"))
+        except OverflowError:
+            return None
+        if len(buf) < cursor + n:
+            pad = cursor + n - len(buf)
+            buf += bytes(pad)
+            used += bytes(pad)
+        if any(used[cursor:cursor + n]):
+            return None
+        buf[cursor:cursor + n] = raw
+        used[cursor:cursor + n] = b"\xff" * n
+        cursor += n
+    k = 0
+    while k < len(used) and used[k]:
+        k += 1
+    return bytes(buf[:k])
+
+
+def spec_prefixes(spec, lname, exclude=None):
+    """spec_prefix of every service visible in the layer (optionally but one); None as soon as one is undecided"""
+    out = []
+    for name, svc in visible_services(spec, lname).items():
+        if name == exclude:
+            continue
+        p = spec_prefix(spec, svc)
+        if p is None:
+            return None
+        out.append(p)
+    return out
+
+
 # --------------------------------------------------------------------------- edits
 def locs(svc):
     """all parameter locations of a service spec: ('req', None, i) / ('pos', j, i) / ('neg', j, i)"""
